@@ -493,6 +493,22 @@ func (g *Gen) transCall(x *Expr, env *Env) TV {
 	case "fmtany":
 		a := g.trans(x.Args[0], env)
 		return TV{"(fmt.any " + a.T + ")", SStr, types.Typ[types.String]}
+	case "athead":
+		// athead(N, E): the value E had at the head of loop N in the current iteration of that loop
+		// (for invariants of a loop nested in loop N and for variants that refer to the enclosing loop)
+		n := int(x.Args[0].Int)
+		for h, ord := range g.headOrd {
+			if ord != n {
+				continue
+			}
+			if g.entry[h] == nil {
+				panic(specErr(x, "athead(%d, ...): loop %d has not been entered at this point", n, n))
+			}
+			envHead := g.loopEnv(g.fn.Blocks[h], false)
+			envHead.heapState = g.entry[h]
+			return g.trans(x.Args[1], envHead)
+		}
+		panic(specErr(x, "no loop %d", n))
 	case "loopidx":
 		// loopidx(N): the range-index variable of loop N of the function under verification
 		n := int(x.Args[0].Int)
@@ -667,6 +683,11 @@ func (g *Gen) baseEnv() *Env {
 	}
 	for _, p := range g.fn.Params {
 		env.vars[p.Name()] = TV{g.v(p), sortOf(p.Type()), p.Type()}
+	}
+	if g.ctr != nil && g.ctr.Positional && len(g.ctr.Params) == len(g.fn.Params) {
+		for i, p := range g.fn.Params {
+			env.vars[g.ctr.Params[i]] = TV{g.v(p), sortOf(p.Type()), p.Type()}
+		}
 	}
 	return env
 }
